@@ -184,7 +184,7 @@ def cmd_run(pid, tier, keep=False):
         e = mkenv("replay")
         e["VERIF_REPLAY_FILES"] = "\n".join(replays)
         e["VERIF_REPLAY_OUT"] = os.path.join(rundir, "replay-out.json")
-        e["VERIF_INSTANCE"] = "30"
+        e["VERIF_INSTANCE"] = str(int(os.environ.get("VERIF_INSTANCE_OFFSET", "0")) // 16 + 30)
         lp = os.path.join(rundir, "replay.log")
         rt = spec.get("replay_timeout", 900)
         replay_job = ("replay", [testbin, "-test.run", "^TestReplay$", "-test.count=1", "-test.timeout=%ds" % rt], e, lp, rt)
@@ -230,7 +230,8 @@ def cmd_run(pid, tier, keep=False):
             e = mkenv(tag)
             e["VERIF_SHARD"] = str(i)
             e["VERIF_SHARDS"] = str(procs)
-            e["VERIF_INSTANCE"] = str(len(jobs))
+            # VERIF_INSTANCE_OFFSET keeps two driver runs of one property on this machine apart (loopback addresses)
+            e["VERIF_INSTANCE"] = str(int(os.environ.get("VERIF_INSTANCE_OFFSET", "0")) + len(jobs))
             for k2, v2 in b.get("env", {}).items():
                 e[k2] = str(v2)
             tmo = b.get("timeout", 900)
